@@ -58,6 +58,9 @@ def flags_pred(I):
 
 def approved_term(I, flag_t):
     """approved(f) as a z3 Bool over a String term."""
+    alt = I.V.c.ghost.get("approved_term")
+    if alt is not None:
+        return alt(I, flag_t)
     fp = flags_pred(I)
     asked = I.ghost["asked"].pred  # Array String Bool: answers given so far
     return z3.Or(z3.Select(fp, flag_t), z3.And(z3.Select(fp, z3.StringVal("review")), z3.Select(asked, flag_t)))
@@ -69,6 +72,8 @@ def s_approved(I, flag):
 
 def gate_open(I):
     """not short-report, active: the only situation in which anything may be written (O2)."""
+    if I.V.c.ghost.get("no_gate"):
+        return z3.BoolVal(True)
     st = I.V.global_value(I, "state")
     fp = st.fields["flags"].pred
     act = st.fields["active"]
